@@ -148,6 +148,20 @@ func main() {
 		switch k.next() {
 		case "MAX":
 			max = k.int()
+		case "LOG":
+			// the program chooses its log level before creating the workflow (public API; the first Init wins)
+			switch k.next() {
+			case "error":
+				sp.InitLogError()
+			case "warning":
+				sp.InitLogWarning()
+			case "audit":
+				sp.InitLogAudit()
+			case "info":
+				sp.InitLogInfo()
+			case "debug":
+				sp.InitLogDebug()
+			}
 		case "SRC":
 			name := k.str()
 			paths := []string{}
